@@ -27,14 +27,14 @@ LEVEL_NOTE = ('Cell values are exactly representable doubles chosen to be unique
 RULE = ("cases: configurations (kind, shape, order supplied, unit, optional parts); executions: write + reads in both orders (+ memmap variants, + get_sed per model), one evaluation per "
         "cell-array comparison; non-trivial = distinct configurations with >= 2 wavelengths whose supplied order or read order requires a reversal, or with an optional part absent")
 ASSUMPTIONS = ["values are finite and positive", "astropy.io.fits round-trips float64 arrays exactly"]
-REQUIRED_CLASSES = ['read-arguments-by-position', 'single-precision-values-handed-over', 'sed', 'cube', 'convolved', 'supplied-wav-ascending', 'supplied-wav-descending', 'read-order-nu', 'read-order-wav', 'no-apertures', 'no-uncertainties',
+REQUIRED_CLASSES = ['model-names-of-40-characters', 'read-arguments-by-position', 'single-precision-values-handed-over', 'sed', 'cube', 'convolved', 'supplied-wav-ascending', 'supplied-wav-descending', 'read-order-nu', 'read-order-wav', 'no-apertures', 'no-uncertainties',
                     'memmap-on', 'memmap-off', 'get_sed', 'unit-erg/cm2/s', 'unit-erg/s', 'unit-Jy', 'writer-vs-fits', 'fits-vs-reader', 'written-twice', 'other-family-unit-both-orders', 'cube-nu-consistent', 'earlier-extracted-seds-rechecked', 'file-overwritten-then-read']
 TIMEOUT = {'quick': 300, 'thorough': 1800}
 
 UNITS = ['mJy', 'Jy', 'erg / (cm2 s)', 'erg / s']
 AXES_SED = {'n_ap': [2, 0, 1, 5], 'n_wav': [3, 2, 7, 40], 'sup': ['wav-desc', 'wav-asc'], 'unit': UNITS, 'path': ['lib-lib', 'fits-lib', 'lib-fits'], 'dtype': ['f8', 'f4']}
 AXES_CUBE = {'n_models': [2, 1, 6], 'n_ap': [2, 0, 1, 5], 'n_wav': [3, 2, 7, 40], 'sup': ['wav-desc', 'wav-asc'], 'unit': UNITS, 'unc': [True, False],
-             'path': ['lib-lib', 'fits-lib', 'lib-fits'], 'dtype': ['f8', 'f4']}
+             'path': ['lib-lib', 'fits-lib', 'lib-fits'], 'dtype': ['f8', 'f4'], 'names': ['short', 'long']}
 AXES_CONV = {'n_models': [2, 1, 6], 'n_ap': [2, 0, 1, 5], 'unit': ['mJy', 'Jy'], 'path': ['lib-lib', 'fits-lib', 'lib-fits'], 'dtype': ['f8', 'f4']}
 
 
@@ -298,6 +298,10 @@ def _cube(ctx, case, rec, d, key):
     err = cells / 8.0
     ap = None if n_ap == 0 else 100.0 * 3.0 ** np.arange(n_ap)
     names = ['cm_%02d' % ((i * 5 + 1) % n_models) for i in range(n_models)] if n_models > 1 else ['cm_00']
+    if case.get('names') == 'long':
+        # names that encode parameters: 40 characters, the first 38 shared (a cube's name column is as wide as its names)
+        names = ['cube_model_with_parameters_in_the_name_' + nm_[-2:][::-1] for nm_ in names]
+        rec.cls('model-names-of-40-characters')
     uq = u.Unit(unit)
     rec.cls('supplied-' + ('wav-ascending' if sup == 'wav-asc' else 'wav-descending'))
     if n_ap == 0:
